@@ -298,6 +298,12 @@ pub fn cases(prop: &str, tier: Tier, seed: u64) -> Vec<CaseDesc> {
                     out.push(CaseDesc { spec: s, scenario: scn.to_string() });
                 }
             }
+            // roots that did not come from the parser: an active data segment, an active element segment,
+            // exports and a start function added through the API before the pass runs
+            out.extend(with_scenario(corpus::gcedge_specs(), "rt:gc,gc2,addroots"));
+            for (p, nq, nt) in [("gcgraph", 800u64, 40_000u64), ("exec", 400, 15_000)] {
+                out.extend(with_scenario(crate::gen::gen_specs(p, seed ^ 0xadd2, if q { nq } else { nt }), "rt:gc,gc2,addroots"));
+            }
         }
         "C01" => {
             out.extend(with_scenario(crate::census::attr_specs(), "rt:emit"));
